@@ -93,6 +93,8 @@ where
     }
 
     pub(crate) async fn run(&mut self, io: &mut PhysLayer) -> RequestError {
+        // bytes left over from a previously opened port must not be parsed as part of this session
+        self.reader.reset();
         loop {
             if let Err(err) = self.run_one(io).await {
                 tracing::warn!("session error: {}", err);
